@@ -61,6 +61,14 @@ CLAIMED["C20"] = dict(cat="other", technique="option-table analysis plus a finit
    note="Trusted: documented boost::program_options semantics (store keeps non-defaulted entries; notify runs notifiers in key order). "
         "Three known findings: a legacy alias in the config file beats the command line (RFVoltage, SyncFreq, steps).",
    ref="DESIGN.md §3 C20")
+CLAIMED["C04"] = dict(cat="other", technique="moment conditions of the extracted Fokker-Planck stencil tables as polynomial identities; call-argument role agreement for the wiring in main",
+   text="Decides a necessary condition only: for both derivation types, every stencil block and every FPType the stencil's zeroth, first and second moments "
+        "equal (1+e1*[damping], e1*p*[damping], e1*[diffusion]) exactly, i.e. the map discretises e1*(f + p f' + f'') with matching damping and diffusion "
+        "coefficients (which is what makes sigma=1 stationary, damping-only contract and diffusion-only spread), the gates depend on FPType only, and main "
+        "hands e1 = 2/(fs*t_damp*steps) and the FPType option to the constructor and falls back to the identity when e1 <= 0. Convergence, monotonicity "
+        "over time and the stable range of the explicit scheme are run-time behaviour and are NOT decided.",
+   note="Trusted: clang front end, isa-extract, sympy; exact arithmetic; interior rows. PhaseSpace.cpp (moments used to observe the spread) is covered under C09.",
+   ref="DESIGN.md §3 C04")
 NOT_YET = "check not built yet in this round (static rule designed in DESIGN.md §3, not implemented)"
 NA = {}
 
